@@ -249,6 +249,12 @@ func (v *wireView) agentMethodsIn(k int64) map[string]bool {
 			out[cv.Call.Method.Name()] = true
 		}
 	}
+	// ... or as a method value of the agent handed to a helper that calls it
+	for _, bc := range v.w.boundCalls(v.serve) {
+		if v.w.canon(v.serve, bc.Recv) == agent && v.inArm(bc.Site, k) {
+			out[bc.Method] = true
+		}
+	}
 	return out
 }
 
